@@ -351,3 +351,53 @@ Corollary csql2loss_vec_prox scale lam (a : nat -> R * R) (w : nat -> R) (y : na
 Proof.
   intros Hs Hl Hw. apply sep_vec_prox; auto. intros; now apply csql2loss_code_prox.
 Qed.
+
+(** ** The generic Loss unit as the code computes it (one real entry; vectors by [sep_vec_prox]):
+    Loss.__call__ is scale * f(x - y), Loss.prox is f.prox(v - y, scale*lam) + y.  By the
+    translation + scaling rule this is a prox for EVERY f with a prox -- even or not. *)
+Theorem loss_code_prox (dom : R -> Prop) (f : R -> R) (fprox : R -> R -> R) (scale y lam v : R) :
+  0 < scale -> 0 < lam ->
+  (forall l x, 0 < l -> @IsProx RSpace dom f l x (fprox l x)) ->
+  @IsProx RSpace (fun x => dom (x - y)) (fun x => scale * f (x - y)) lam v (loss_code fprox scale y lam v).
+Proof.
+  intros Hs Hl Hf. unfold loss_code. rsimp.
+  assert (Hq : @IsProx RSpace dom f (scale * lam) (@vsub RSpace v y) (fprox (scale * lam) (v - y))).
+  { rewrite RSpace_vsub. apply Hf. nra. }
+  pose proof (@loss_translate_prox RSpace dom f scale y lam v _ Hq) as H.
+  destruct H as [Hd Hm]. split.
+  - rewrite RSpace_vsub in Hd. exact Hd.
+  - intros x Hx. specialize (Hm x). rewrite RSpace_vsub in Hm. specialize (Hm Hx).
+    unfold obj in *. rewrite RSpace_vsub in Hm. exact Hm.
+Qed.
+
+(** instance with a NON-EVEN f: Loss(y, f = NonNegativeIndicator) is the constraint x >= y *)
+Corollary loss_nonneg_code_prox (scale y lam v : R) : 0 < scale -> 0 < lam ->
+  @IsProx RSpace (fun x => 0 <= x - y) (fun x => scale * 0) lam v
+    (loss_code (fun _ => nonneg_code) scale y lam v).
+Proof.
+  intros Hs Hl. apply (loss_code_prox (fun x => 0 <= x) (fun _ => 0) (fun _ => nonneg_code)); auto.
+  intros l x _. apply nonneg_code_prox.
+Qed.
+
+(** The reflected form  y - f.prox(y - v, scale*lam)  (the prox of x |-> scale*f(y - x)):
+    it coincides with the code's form when f.prox is odd (every even f), and is NOT a prox of
+    scale*f(x - y) for a non-even f -- concrete witness with f = NonNegativeIndicator. *)
+Definition loss_reflected_code {K} `{Num K} (fprox : K -> K -> K) (scale y lam v : K) : K :=
+  (y - fprox (scale * lam) (y - v))%num.
+
+Lemma loss_reflected_odd (fprox : R -> R -> R) (scale y lam v : R) :
+  (forall l x, fprox l (- x) = - fprox l x) ->
+  loss_reflected_code fprox scale y lam v = loss_code fprox scale y lam v.
+Proof.
+  intros Hodd. unfold loss_reflected_code, loss_code. rsimp.
+  replace (y - v) with (- (v - y)) by ring. rewrite Hodd. ring.
+Qed.
+
+Theorem loss_reflected_refuted :
+  exists scale y lam v : R, 0 < scale /\ 0 < lam /\
+    ~ @IsProx RSpace (fun x => 0 <= x - y) (fun x => scale * 0) lam v
+        (loss_reflected_code (fun _ => nonneg_code) scale y lam v).
+Proof.
+  exists 2, 0, 1, (-1). split; [lra|]. split; [lra|]. intros [Hd _]. revert Hd.
+  unfold loss_reflected_code, nonneg_code. rsimp. rcases; lra.
+Qed.
